@@ -97,36 +97,103 @@ func runC14L2(r *core.Run) (*core.Violation, func() *core.Violation) {
 		}
 		x.s.Settle()
 	}()
+	// start-up histories: the provider (re)starts over workloads of active leases that already run; the
+	// cluster's and the node's answers take time, and meanwhile a lease may close or a tenant may update
+	cc := &cluClient{s: x.s, inc: 1}
+	cq := &cluQuery{}
+	startupMode := r.Bool(25, "knob.startup-with-workloads")
+	for i := 0; i < nLeases; i++ {
+		oid := mtypes.OrderID{Owner: tenant.String(), DSeq: uint64([]int{1, 12}[i]), GSeq: 1, OSeq: 1}
+		gs := simpleGroupSpec("web", 10, 1)
+		l := &mLease{id: mtypes.MakeLeaseID(mtypes.MakeBidID(oid, prov)), group: dtypes.Group{GroupID: oid.GroupID(), State: dtypes.GroupOpen, GroupSpec: gs}}
+		l.key = mquery.LeasePath(l.id)
+		l.hosts = []string{fmt.Sprintf("app%d.example.com", i)}
+		l.swapHosts = swap[i]
+		l.blockedSecond = blocked[i]
+		x.leases = append(x.leases, l)
+		if startupMode && !l.blockedSecond && r.Bool(70, "startup.existing") {
+			l.existing, l.lastSent, l.managed = true, 1, true
+			_, g := x.manifestFor(l, 1)
+			cc.existing = append(cc.existing, runningDeployment{lid: l.id, group: *g})
+			cq.s = x.s
+			cq.active = append(cq.active, mtypes.QueryLeaseResponse{Lease: mtypes.Lease{LeaseID: l.id, State: mtypes.LeaseActive}})
+		}
+	}
 	// setup runs as a simulated task under a fair schedule
 	setupDone := false
 	simrt.Go("setup", func() {
 		x.bus = pubsub.NewBus()
-		cl := &cluChainClient{q: &cluQuery{}, tx: &cluTx{s: x.s, inc: 1}}
+		cl := &cluChainClient{q: cq, tx: &cluTx{s: x.s, inc: 1}}
 		sess := session.New(log.NewNopLogger(), cl, &x.prov)
 		cfg := cluster.NewDefaultConfig()
 		cfg.InventoryExternalPortQuantity = 100
 		cfg.BlockedHostnames = []string{blockedHost}
 		var err error
-		x.svc, err = cluster.NewService(ctx, sess, x.bus, &cluClient{s: x.s, inc: 1}, cfg)
+		x.svc, err = cluster.NewService(ctx, sess, x.bus, cc, cfg)
 		if err != nil {
 			panic(err)
 		}
-		for i := 0; i < nLeases; i++ {
-			oid := mtypes.OrderID{Owner: tenant.String(), DSeq: uint64([]int{1, 12}[i]), GSeq: 1, OSeq: 1}
-			gs := simpleGroupSpec("web", 10, 1)
-			l := &mLease{id: mtypes.MakeLeaseID(mtypes.MakeBidID(oid, prov)), group: dtypes.Group{GroupID: oid.GroupID(), State: dtypes.GroupOpen, GroupSpec: gs}}
-			l.key = mquery.LeasePath(l.id)
-			l.hosts = []string{fmt.Sprintf("app%d.example.com", i)}
-			l.swapHosts = swap[i]
-			l.blockedSecond = blocked[i]
-			x.leases = append(x.leases, l)
-			if _, err := x.svc.Reserve(oid, gs); err != nil {
+		for _, l := range x.leases {
+			l.reserved = true
+			if l.existing {
+				continue // the inventory accounts for a workload found at start-up by itself
+			}
+			if _, err := x.svc.Reserve(l.id.OrderID(), l.group.GroupSpec); err != nil {
 				panic(fmt.Sprintf("harness: initial reservation failed: %v", err))
 			}
-			l.reserved = true
 		}
 		setupDone = true
 	})
+	if cc.existing != nil {
+		r.Count("probe:l2-startup-with-workloads")
+		r.Logf("start-up: %d workloads already running", len(cc.existing))
+		for i := 0; i < 600 && !setupDone; i++ {
+			loop.drainNoComplete(200)
+			var waiting *Call
+			for _, c := range x.s.Pending() {
+				if c.Method == "Cluster.Deployments" || c.Method == "Query.ActiveLeases" {
+					waiting = c
+				}
+			}
+			if waiting == nil {
+				break
+			}
+			x.s.Tick()
+			for _, l := range x.leases {
+				l := l
+				if !l.existing || l.closedAt != 0 {
+					continue
+				}
+				var ev interface{}
+				switch r.Weighted([]int{6, 2, 1}, "startup.meanwhile") {
+				case 1:
+					ev = mtypes.NewEventLeaseClosed(l.id, sdk.NewInt64Coin("uakt", 10))
+					l.closedAt, l.closedWith = x.s.Step, true
+					r.Count("probe:l2-close-during-startup")
+					r.Logf("step %d: EventLeaseClosed %s (provider waits for %s)", x.s.Step, l.key, waiting.Method)
+				case 2:
+					l.lastSent++
+					m, _ := x.manifestFor(l, l.lastSent)
+					ev = event.ManifestReceived{LeaseID: l.id, Manifest: m, Group: &l.group, Deployment: &dtypes.QueryDeploymentResponse{}}
+					r.Count("probe:l2-update-during-startup")
+					r.Logf("step %d: ManifestReceived %s v%d (provider waits for %s)", x.s.Step, l.key, l.lastSent, waiting.Method)
+				}
+				if ev != nil {
+					r.Ops++
+					r.Mutating++
+					simrt.Go("inject-startup", func() {
+						if err := x.bus.Publish(ev); err != nil {
+							panic(err)
+						}
+					})
+					// the event is on the bus (and in every subscription that exists) before the answer arrives
+					loop.drainNoComplete(200)
+				}
+			}
+			x.s.Complete(waiting, nil)
+			r.Logf("step %d: %s -> ok", x.s.Step, waiting.Key)
+		}
+	}
 	loop.drain(600, func() bool { return setupDone })
 	if !setupDone {
 		panic("harness: C14 L2 setup did not complete under a fair schedule")
